@@ -172,24 +172,25 @@ Proof. exact cache_stale_refuted. Qed.
 (** ** Restricted compatible units, attribute lookup *)
 
 (** [restricted_compatible_exact] *)
-Theorem C14_restricted_compatible_exact_group qk r tbl st a n all :
+Theorem C14_restricted_compatible_exact_group qk r tbl st a n names :
   ginv (ss_groups st) → ss_systems st !! n = None → is_Some (ss_groups st !! n) →
-  compat_all r tbl a = Ok all →
+  compat_names r tbl a = Ok names →
   ∃ v, (get_compatible qk r tbl st a (Some n)).2 = Ok v
-       ∧ ∀ u, u ∈ v ↔ u ∈ all ∧ in_closure (ss_groups st) n u.
-Proof. exact (compat_group_exact qk r tbl st a n all). Qed.
-Theorem C14_restricted_compatible_exact_system qk r tbl st a n s all m :
-  ss_systems st !! n = Some s → (sys_members qk st n).2 = Ok m → compat_all r tbl a = Ok all →
-  ∃ v, (get_compatible qk r tbl st a (Some n)).2 = Ok v ∧ ∀ u, u ∈ v ↔ u ∈ all ∧ u ∈ m.
-Proof. exact (compat_system_exact qk r tbl st a n s all m). Qed.
-Theorem C14_compatible_same_dimension r tbl a all :
-  compat_all r tbl a = Ok all →
-  (a = ∅ ∧ all = ∅) ∨ (a ≠ ∅ ∧ ∃ d, dim_of r a = Ok d ∧ ∀ u, u ∈ all ↔ (u, d) ∈ tbl).
-Proof. exact (compat_all_spec r tbl a all). Qed.
-Theorem C14_restricted_compatible_unknown qk r tbl st a n all :
-  ss_systems st !! n = None → ss_groups st !! n = None → compat_all r tbl a = Ok all →
+       ∧ ∀ u, u ∈ v ↔ u ∈ names ∧ in_closure (ss_groups st) n u.
+Proof. exact (compat_group_exact qk r tbl st a n names). Qed.
+Theorem C14_restricted_compatible_exact_system qk r tbl st a n s names m :
+  ss_systems st !! n = Some s → (sys_members qk st n).2 = Ok m → compat_names r tbl a = Ok names →
+  ∃ v, (get_compatible qk r tbl st a (Some n)).2 = Ok v ∧ ∀ u, u ∈ v ↔ u ∈ names ∧ u ∈ m.
+Proof. exact (compat_system_exact qk r tbl st a n s names m). Qed.
+(** the unrestricted listing: the names recorded under the dimensionality of the input *)
+Theorem C14_compatible_same_dimension r tbl a names :
+  compat_names r tbl a = Ok names →
+  (a = ∅ ∧ names = []) ∨ (a ≠ ∅ ∧ ∃ d, dim_of r a = Ok d ∧ ∀ u, u ∈ names ↔ (u, d) ∈ tbl).
+Proof. exact (compat_names_spec r tbl a names). Qed.
+Theorem C14_restricted_compatible_unknown qk r tbl st a n names :
+  ss_systems st !! n = None → ss_groups st !! n = None → compat_names r tbl a = Ok names →
   (get_compatible qk r tbl st a (Some n)).2 = Err EValue.
-Proof. exact (compat_unknown qk r tbl st a n all). Qed.
+Proof. exact (compat_unknown qk r tbl st a n names). Qed.
 
 (** [system_attr_lookup] *)
 Theorem C14_system_attr_lookup r st sysname item :
